@@ -93,6 +93,30 @@ def check(ctx: Ctx, col: Collector, tier: str) -> None:
                                  "a function's results and parameters are added to the stores with it" if okk else "not added",
                                  *([] if okk else ["results or parameters of a function are not added to the inventory (their ids dangle)"]))
 
+    # a name can be declared several times in one scope (`@show.register def _(...)`, redefinitions): the id-keyed store keeps the
+    # last entry while the owner's list is appended to, unless something compares with what is registered already
+    amod = repo.module(API_MOD)
+    for kind, store, owner_adds in (("functions", "functions", ("Module.add_function", "Class.add_method")), ("classes", "classes", ("Module.add_class", "Class.add_class"))):
+        guards = []
+        for rel2 in (VISITOR, API_MOD):
+            for fi in repo.module(rel2).functions.values():
+                for n in ast.walk(fi.node):
+                    if isinstance(n, ast.Compare) and any(isinstance(o, (ast.In, ast.NotIn)) for o in n.ops) and any(ast.unparse(c) in (f"self.api.{store}", f"self.{store}") for c in n.comparators):
+                        guards.append(f"{fi.qualname}:{n.lineno}")
+        for q in owner_adds:
+            fi = amod.functions.get(q)
+            if fi is not None and any(isinstance(n, ast.Compare) and ".id" in ast.unparse(n) for n in ast.walk(fi.node)):
+                guards.append(f"{q} filters by id")
+        appends = [q for q in owner_adds if q in amod.functions and any(isinstance(n, ast.Call) and getattr(n.func, "attr", "") == "append" for n in ast.walk(amod.functions[q].node))]
+        if not appends and not guards:
+            raise AnalysisError(f"owner registration of {kind} not found")
+        okk = bool(guards)
+        (col.ok if okk else col.bad)("C12.PAIRING", f"{VISITOR}::duplicate-id::{kind}", repo.loc(API_MOD, amod.functions[owner_adds[0]].node),
+                                     f"an id that is registered already is recognised ({guards[:2]})" if okk else f"store self.{store}[x.id] = x replaces, {appends} append; nothing compares with the registered ids",
+                                     *([] if okk else [f"two {kind} with one name in one scope (`@show.register def _(x: int)` / `def _(x: str)`, a redefined `def twice`, `class Codec` defined twice) get the same id: "
+                                                       f"the store keeps the last one, the owner lists the id twice and the members of the first one (parameters, results, methods) stay behind without an owner; "
+                                                       f"the stub declares the name twice"]))
+
     # ------------------------------------------------------------------ ID-FORM
     vm = repo.module(VISITOR)
     nsites = 0
@@ -211,6 +235,20 @@ def check(ctx: Ctx, col: Collector, tier: str) -> None:
                                      "a subscripted base expression contributes its class" if okk else f"appends per path: {[len(a) for a in aps]}",
                                      *([] if okk else ["a base class written with type arguments (`class IntBox(Box[int])`) is not recorded as a superclass: the stub shows no `sub Box`, and the "
                                                        "public members of a private generic base (`_Container[int]`) are not inherited"]))
+
+    # a base that mypy resolved to a class keeps the class's qualified name, whatever the alias table holds for its bare name
+    if sloops:
+        node, itv, el, entry = sloops[-1]
+        resolved = Obj("NameExpr", (("fullname", Const("pkg.base.Base")), ("name", Const("Base")), ("node", Obj("TypeInfo", ()))))
+        body = run_body(it, node, entry.clone(), resolved)
+        vals = [e.args[0] for o in body if o.kind != "raise" for e in new_effects(o, entry) if e.kind == "mutate" and e.target == "superclasses.append" and e.args]
+        wrong = [v for v in vals if v != Const("pkg.base.Base")]
+        okk = bool(vals) and not wrong
+        (col.ok if okk else col.bad)("C12.FLAGS", f"{VISITOR}::{VCLS}.enter_classdef::superclasses::resolved-base-qname", repo.loc(VISITOR, cfi2.node),
+                                     "a base expression mypy resolved to a class is recorded under that class's qualified name" if okk else f"recorded as {[repr(v)[:60] for v in wrong][:3]}",
+                                     *([] if okk else ["the qualified name mypy gives a resolved base class is replaced by the alias table's entry for its bare name: with `from .base import Base` and one use of "
+                                                       "`Base` in an expression anywhere in the package, `class Child(Base)` records the superclass `base.Base` (the unresolved text of the relative import) "
+                                                       "instead of `pkg.base.Base`"]))
 
     # ------------------------------------------------------------------ ATTR-DEDUP-SCOPE
     dfi = repo.function(VISITOR, f"{VCLS}._is_attribute_already_defined")
